@@ -32,6 +32,13 @@ def sig_for(kind, text, ctx):
 
 
 def run(chk):
+    progs_i, li = interaction_stream(chk)
+    for p_ in progs_i:
+        k0, v0 = outcome(li[p_['text']])
+        for w_ in p_['variants']:
+            k1, v1 = outcome(li[w_])
+            if k0 != k1 or (k0 == 'ok' and erase(v0) != erase(v1)):
+                chk.oracle_fail('interaction-variant:' + p_['family'], 'file', p_['text'], (k0, w_[:120]), k1, 'two renderings that differ only in layout / optional punctuation are read as different programs')
     rng = random.Random(chk.seed)
     chk.rule = ('grid: every token kind (48 operators, 25 keywords, 11 literal forms) x %d line-ending contexts, followed by a second line, scan mode (hook H1), '
                 'exhaustive; look-ahead: every text over {/ * newline c} to length 7 (with blank, to length 8, thorough) containing a comment opener, between a trigger / non-trigger token and the next token or the end of input, exhaustive; oracle: positions of synthetic semicolons = spec rule.  programs: every accepted corpus program and its rendering with all automatic '
